@@ -20,6 +20,16 @@
 #define MAXCTX 8
 
 static nng_socket sut;
+static nng_listener the_listener;
+static nng_dialer   the_dialer;
+static int          have_dialer;
+static int          life_mode;   // record all pipe events, report endpoint state
+static int          ctx_ever1;
+static int          reject_next; // the ADD_PRE callback closes the pipe
+static char         evbuf[512];
+static size_t       evn;
+static int          evcnt[VT_MAXSLOTS];
+static nng_pipe     slot_pipe[VT_MAXSLOTS]; // application handles of the pipes, by slot (for probing after close)
 static int        sut_open;
 static uint16_t   peer_proto;
 static char       proto_name[32];
@@ -293,6 +303,22 @@ static void
 pipe_event(nng_pipe p, nng_pipe_ev ev, void *arg)
 {
 	(void) arg;
+	if (life_mode) {
+		int s = slot_of_pipeid(nng_pipe_id(p));
+		// [slot, event, n]: n-th notification of that pipe (the list is compared as a set: the order between pipes is free)
+		evn += (size_t) snprintf(evbuf + evn, sizeof(evbuf) - evn, "%s[%d,\"%s\",%d]", evn ? "," : "", s,
+		    ev == NNG_PIPE_EV_ADD_PRE ? "pre" : ev == NNG_PIPE_EV_ADD_POST ? "post" : "rem",
+		    (s > 0 && s < VT_MAXSLOTS) ? ++evcnt[s] : 0);
+		if (s > 0 && s < VT_MAXSLOTS) {
+			slot_pipe[s] = p;
+		}
+		if (ev == NNG_PIPE_EV_ADD_PRE && reject_next) {
+			nng_pipe_close(p);
+			if (s > 0) {
+				dying[s] = 1;
+			}
+		}
+	}
 	if (ev == NNG_PIPE_EV_REM_POST) {
 		int s = slot_of_pipeid(nng_pipe_id(p));
 		if (s > 0) {
@@ -328,6 +354,11 @@ settle(void)
 				break;
 			}
 		}
+		if (!ran && auto_run && dee_run_all(10000) > 0) {
+			// macro-step mode runs everything to quiescence anyway: the reaper may be waiting for a callback of an
+			// endpoint (dialer timer, accept) rather than of a pipe
+			ran = 1;
+		}
 		if (!ran) {
 			nanosleep(&ts, NULL);
 		}
@@ -355,6 +386,42 @@ quiesce(void)
 	abort();
 }
 
+// A close call blocks until the callbacks of the object have run.  Under the task gate those callbacks are released by
+// this thread, so the call is made on a helper thread while this thread keeps releasing whatever becomes runnable.
+static struct {
+	int kind; // 0 socket, 1 listener, 2 dialer
+	int rv;
+	volatile int done;
+} bc;
+static void *
+bc_thread(void *arg)
+{
+	(void) arg;
+	bc.rv   = bc.kind == 0 ? nng_socket_close(sut) : bc.kind == 1 ? nng_listener_close(the_listener) : nng_dialer_close(the_dialer);
+	bc.done = 1;
+	return NULL;
+}
+static int
+blocking_close(int kind)
+{
+	pthread_t       th;
+	struct timespec ts = { 0, 200000 };
+	bc.kind = kind;
+	bc.done = 0;
+	pthread_create(&th, NULL, bc_thread, NULL);
+	for (int i = 0; i < 100000 && !bc.done; i++) {
+		if (dee_run_all(10000) == 0) {
+			nanosleep(&ts, NULL);
+		}
+	}
+	if (!bc.done) {
+		fprintf(stderr, "driver: watchdog: close does not return\n");
+		abort();
+	}
+	pthread_join(th, NULL);
+	return bc.rv;
+}
+
 static const char *
 role_of(const char *sym)
 {
@@ -369,6 +436,25 @@ obs_json(void)
 	dee_task t[DEE_MAXTASKS];
 	int      n = dee_pending(t, DEE_MAXTASKS);
 	int      fd, rv;
+	if (life_mode) {
+		int first = 1;
+		o("\"obs\":{\"done\":");
+		done_final = 1;
+		done_json();
+		done_final = 0;
+		o(",\"S_ev\":[%s],\"up\":[", evbuf);
+		evn      = 0;
+		evbuf[0] = 0;
+		for (int s = 1; s < VT_MAXSLOTS; s++) {
+			if (vt_alive(s) && !vt_closed(s)) {
+				o("%s%d", first ? "" : ",", s);
+				first = 0;
+			}
+		}
+		o("],\"lparked\":%s,\"dparked\":%s}", vt_parked_conns("sut") > 0 ? "true" : "false",
+		    vt_parked_conns("dial") > 0 ? "true" : "false");
+		return;
+	}
 	o("\"obs\":{");
 	if (auto_run) {
 		done_final = 1;
@@ -565,6 +651,12 @@ main(int argc, char **argv)
 			if (nng_ctx_open(&c, w) == 0) {
 				nng_ctx_close(c);
 			}
+			{
+				nng_dialer wd;
+				if (nng_dialer_create(&wd, w, "irc://warmd") == 0) {
+					nng_dialer_close(wd);
+				}
+			}
 			if (nng_listener_create(&l, w, "irc://warm") == 0 && nng_listener_start(l, 0) == 0) {
 				if (vt_connect("warm", NNI_PROTO(3, 0), 31) == 31) {
 					for (int i = 0; i < 2000 && vt_recv_parked(31) == 0; i++) {
@@ -596,6 +688,11 @@ main(int argc, char **argv)
 			memset(ops, 0, sizeof(ops));
 			memset(dying, 0, sizeof(dying));
 			memset(ctx_open_, 0, sizeof(ctx_open_));
+			memset(slot_pipe, 0, sizeof(slot_pipe));
+			memset(evcnt, 0, sizeof(evcnt));
+			ctx_ever1 = have_dialer = life_mode = reject_next = 0;
+			evn = 0;
+			evbuf[0] = 0;
 			nidtab   = 0;
 			nsendtab = 0;
 			id_base_known = 0;
@@ -703,6 +800,7 @@ main(int argc, char **argv)
 				fprintf(stderr, "driver: listen: %s\n", nng_strerror(rv));
 				return 3;
 			}
+			the_listener = l;
 			continue; // part of the initial state: no result line
 		}
 		o("{");
@@ -714,7 +812,9 @@ main(int argc, char **argv)
 				nng_device_aio(dev_aio, sut, sut2);
 				quiesce();
 			}
-			if (dev_mode && !strcmp(a2, "R")) {
+			if (!strcmp(a2, "D")) {
+				r = vt_connect("dial", peer_proto, s);
+			} else if (dev_mode && !strcmp(a2, "R")) {
 				r = vt_connect("sut2", peer_proto2, s);
 			} else if (dev_mode) {
 				r = vt_connect("sut", peer_proto, s);
@@ -905,6 +1005,64 @@ main(int argc, char **argv)
 			}
 			r = vt_inject(atoi(a1), m);
 			o("\"out\":{\"rv\":\"%s\"},", r == 1 ? "delivered" : r == 0 ? "queued" : "nopipe");
+		} else if (!strcmp(cmd, "life")) {
+			life_mode = atoi(a1);
+			nng_pipe_notify(sut, NNG_PIPE_EV_ADD_PRE, pipe_event, NULL);
+			nng_pipe_notify(sut, NNG_PIPE_EV_ADD_POST, pipe_event, NULL);
+		} else if (!strcmp(cmd, "dial")) {
+			int rv = nng_dialer_create(&the_dialer, sut, "irc://dial");
+			if (rv == 0) {
+				nng_dialer_set_ms(the_dialer, NNG_OPT_RECONNMINT, 10);
+				nng_dialer_set_ms(the_dialer, NNG_OPT_RECONNMAXT, 10);
+				rv          = nng_dialer_start(the_dialer, NNG_FLAG_NONBLOCK);
+				have_dialer = 1;
+			}
+			settle();
+			o("\"out\":{\"rv\":\"%s\"},", rvname(rv));
+		} else if (!strcmp(cmd, "dfail")) {
+			vt_connect_fail("dial", NNG_ECONNREFUSED);
+			settle();
+			o("\"out\":{\"rv\":\"ok\"},");
+		} else if (!strcmp(cmd, "reject")) {
+			reject_next = atoi(a1);
+			o("\"out\":{\"rv\":\"ok\"},");
+		} else if (!strcmp(cmd, "lclose") || !strcmp(cmd, "dclose")) {
+			int rv = blocking_close(cmd[0] == 'l' ? 1 : 2);
+			o("\"out\":{\"rv\":\"%s\"},", rvname(rv));
+		} else if (!strcmp(cmd, "close")) {
+			int rv   = blocking_close(0);
+			sut_open = 0;
+			o("\"out\":{\"rv\":\"%s\"},", rvname(rv));
+		} else if (!strcmp(cmd, "probe")) {
+			// every handle derived from the closed socket must be refused
+			nng_msg    *m = mk_msg(7);
+			int         rv, bad = 0;
+#define CLS(r) (((r) == NNG_ECLOSED || (r) == NNG_ENOENT) ? "invalid" : rvname(r))
+			rv = nng_sendmsg(sut, m, NNG_FLAG_NONBLOCK);
+			if (rv != 0) {
+				nng_msg_free(m);
+			}
+			o("\"out\":{\"sock\":\"%s\"", CLS(rv));
+			if (ctx_ever1) {
+				m  = NULL;
+				rv = nng_ctx_recvmsg(ctxs[1], &m, NNG_FLAG_NONBLOCK);
+				if (rv == 0) {
+					nng_msg_free(m);
+				}
+				o(",\"ctx\":\"%s\"", CLS(rv));
+			} else {
+				o(",\"ctx\":\"none\"");
+			}
+			o(",\"lst\":\"%s\"", CLS(nng_listener_close(the_listener)));
+			o(",\"dial\":\"%s\"", have_dialer ? CLS(nng_dialer_close(the_dialer)) : "none");
+			for (int s = 1; s < VT_MAXSLOTS; s++) {
+				if (nng_pipe_id(slot_pipe[s]) > 0) {
+					rv = nng_pipe_close(slot_pipe[s]);
+					bad |= !(rv == NNG_ECLOSED || rv == NNG_ENOENT);
+				}
+			}
+			o(",\"pipes\":\"%s\"},", bad ? "alive" : "invalid");
+			settle();
 		} else if (!strcmp(cmd, "symw")) {
 			symw = atoi(a1);
 		} else if (!strcmp(cmd, "pipe_close")) {
@@ -973,6 +1131,7 @@ main(int argc, char **argv)
 			int c  = atoi(a1);
 			int rv = nng_ctx_open(&ctxs[c], sut);
 			ctx_open_[c] = rv == 0;
+			ctx_ever1 |= (c == 1 && rv == 0);
 			o("\"out\":{\"rv\":\"%s\"},", rvname(rv));
 		} else if (!strcmp(cmd, "ctx_close")) {
 			int c  = atoi(a1);
